@@ -74,6 +74,11 @@ def truth_eval(t, subst):
             return bool(subst[t])
     except TypeError:
         pass
+    try:
+        if ('len', t) in subst:
+            return bool(subst[('len', t)])      # truth of a sized value is "not empty"
+    except TypeError:
+        pass
     if not isinstance(t, tuple) or not t:
         return bool(t)
     op = t[0]
